@@ -232,7 +232,7 @@ pub fn run(ctx: &Ctx) -> Report {
     // coverage-guided part: replay of the committed corpus (quick), libFuzzer campaign (thorough)
     crate::fuzzrun::replay_corpus("fmtdiff", &mut total);
     if ctx.tier == Tier::Thorough && ctx.part.is_none() {
-        crate::fuzzrun::campaign("fmtdiff", ctx.seed, 3_000_000, 8, 120, &mut total);
+        crate::fuzzrun::campaign("fmtdiff", ctx.seed, 600_000, 8, 120, &mut total);
     }
     Report {
         stats: total,
